@@ -136,8 +136,11 @@ def _prune(keep: Path) -> None:
         )
     except FileNotFoundError:
         return
+    import time
+
     for d in dirs[:-3]:
-        if d != keep:
+        # never remove a directory another run may still be building into
+        if d != keep and time.time() - d.stat().st_mtime > 6 * 3600:
             shutil.rmtree(d, ignore_errors=True)
 
 
